@@ -1,8 +1,386 @@
 /-
-Helper lemmas for property C02 (tail calls run in bounded space).
+Helper lemmas for property C02 (tail calls run in bounded space): the activation counters
+`Store.depth` / `Store.maxDepth` through every evaluator function.
 -/
 import RuschmProofs.ErrLemmas
 namespace Ruschm.Eval
 open Prim
+
+/-! ## the activation counters -/
+
+/-- what an evaluation step may do to the activation counters: `depth` is given back as it was
+received, `maxDepth` does not decrease -/
+def DepthOk (σ σ' : Store) : Prop := σ'.depth = σ.depth ∧ σ.maxDepth ≤ σ'.maxDepth
+
+theorem DepthOk.refl (σ : Store) : DepthOk σ σ := ⟨rfl, Nat.le_refl _⟩
+theorem DepthOk.trans {σ₁ σ₂ σ₃ : Store} (h₁ : DepthOk σ₁ σ₂) (h₂ : DepthOk σ₂ σ₃) : DepthOk σ₁ σ₃ :=
+  ⟨h₂.1.trans h₁.1, Nat.le_trans h₁.2 h₂.2⟩
+theorem DepthOk.of_eq {σ σ' : Store} (hd : σ'.depth = σ.depth) (hm : σ'.maxDepth = σ.maxDepth) : DepthOk σ σ' :=
+  ⟨hd, Nat.le_of_eq hm.symm⟩
+
+theorem define_counters (σ : Store) (ρ : Nat) (k : String) (v : Value) :
+    (σ.define ρ k v).depth = σ.depth ∧ (σ.define ρ k v).maxDepth = σ.maxDepth := by
+  unfold Store.define; split <;> exact ⟨rfl, rfl⟩
+
+theorem set_counters (σ : Store) (ρ : Nat) (k : String) (v : Value) :
+    (σ.set ρ k v).2.depth = σ.depth ∧ (σ.set ρ k v).2.maxDepth = σ.maxDepth := by
+  unfold Store.set; split
+  · exact define_counters ..
+  · exact ⟨rfl, rfl⟩
+
+theorem bindFixed_counters : ∀ (fs : List String) (as : List Value) (σ : Store) (ρ : Nat),
+    (bindFixed σ ρ fs as).2.depth = σ.depth ∧ (bindFixed σ ρ fs as).2.maxDepth = σ.maxDepth
+  | [], _, _, _ => ⟨rfl, rfl⟩
+  | _ :: _, [], _, _ => ⟨rfl, rfl⟩
+  | f :: fs, a :: as, σ, ρ => by
+    rw [bindFixed]
+    have h := bindFixed_counters fs as (σ.define ρ f a) ρ
+    have h' := define_counters σ ρ f a
+    exact ⟨h.1.trans h'.1, h.2.trans h'.2⟩
+
+theorem readLiteral_counters (σ : Store) (d : Datum) :
+    (readLiteral σ d).2.depth = σ.depth ∧ (readLiteral σ d).2.maxDepth = σ.maxDepth :=
+  have h := (readLiteral_litExt d σ).rest
+  ⟨h.2.2.2.1, h.2.2.2.2⟩
+
+theorem lift_counters {α} (σ : Store) (r : Except Err α) (k : α → Value) :
+    (lift σ r k).2.depth = σ.depth ∧ (lift σ r k).2.maxDepth = σ.maxDepth := by
+  unfold lift; split <;> exact ⟨rfl, rfl⟩
+
+theorem num1_counters (σ : Store) (args b f) :
+    (num1 σ args b f).2.depth = σ.depth ∧ (num1 σ args b f).2.maxDepth = σ.maxDepth := by
+  unfold num1
+  repeat' split
+  all_goals exact ⟨rfl, rfl⟩
+
+theorem num2_counters (σ : Store) (args b f) :
+    (num2 σ args b f).2.depth = σ.depth ∧ (num2 σ args b f).2.maxDepth = σ.maxDepth := by
+  unfold num2
+  repeat' split
+  all_goals exact ⟨rfl, rfl⟩
+
+/-- native procedures do not touch the activation counters -/
+theorem applyPure_counters (σ : Store) (b : Builtin) (args : List Value) :
+    (applyPure σ b args).2.depth = σ.depth ∧ (applyPure σ b args).2.maxDepth = σ.maxDepth := by
+  cases b
+  all_goals simp only [applyPure, realFn, realFn2]
+  all_goals first
+    | exact lift_counters ..
+    | exact num1_counters ..
+    | exact num2_counters ..
+    | (repeat' split
+       all_goals exact ⟨rfl, rfl⟩)
+
+theorem depthOk_enter_leave {σ σ₁ : Store} (h : DepthOk (enter σ) σ₁) : DepthOk σ (leave σ₁) := by
+  obtain ⟨hd, hm⟩ := h
+  refine ⟨?_, ?_⟩
+  · show σ₁.depth - 1 = σ.depth
+    rw [hd]; show σ.depth + 1 - 1 = σ.depth; omega
+  · show σ.maxDepth ≤ σ₁.maxDepth
+    exact Nat.le_trans (Nat.le_max_left _ _) hm
+
+/-- all eight evaluator functions, for one amount of fuel -/
+structure Depth (n : Nat) : Prop where
+  expr : ∀ σ ρ e, DepthOk σ (evalExpr n σ ρ e).2
+  args : ∀ σ ρ es, DepthOk σ (evalArgs n σ ρ es).2
+  proc : ∀ σ p as env, DepthOk σ (applyProcedure n σ p as env).2
+  loop : ∀ σ p as env, DepthOk σ (applyLoop n σ p as env).2
+  scheme : ∀ σ lam cenv as, DepthOk σ (applyScheme n σ lam cenv as).2
+  defs : ∀ σ ρ ds, DepthOk σ (evalDefs n σ ρ ds).2
+  body : ∀ σ ρ es, DepthOk σ (evalBody n σ ρ es).2
+  tail : ∀ σ ρ e, DepthOk σ (evalTail n σ ρ e).2
+
+theorem depth_expr {n} (ih : Depth n) (σ ρ e) : DepthOk σ (evalExpr (n+1) σ ρ e).2 := by
+  cases e with
+  | prim p l => rw [evalExpr]; split <;> exact .refl σ
+  | datum d l => rw [evalExpr]; exact .of_eq (readLiteral_counters σ d).1 (readLiteral_counters σ d).2
+  | quote d l => rw [evalExpr]; exact .of_eq (readLiteral_counters σ d).1 (readLiteral_counters σ d).2
+  | lambda lam l => rw [evalExpr]; exact .refl σ
+  | sym s l => rw [evalExpr]; split <;> exact .refl σ
+  | assign name ve l =>
+    rw [evalExpr]
+    have h₁ := ih.expr σ ρ ve
+    split
+    · rename_i heq; rw [heq] at h₁; exact h₁
+    · rename_i v σ₁ heq; rw [heq] at h₁
+      have hs := set_counters σ₁ ρ name v
+      split
+      · rename_i heq₂; rw [heq₂] at hs; exact h₁.trans (.of_eq hs.1 hs.2)
+      · rename_i heq₂; rw [heq₂] at hs; exact h₁.trans (.of_eq hs.1 hs.2)
+  | cond t c a l =>
+    rw [evalExpr]
+    have h₁ := ih.expr σ ρ t
+    split
+    · rename_i heq; rw [heq] at h₁; exact h₁
+    · rename_i tv σ₁ heq; rw [heq] at h₁
+      split
+      · exact h₁.trans (ih.expr ..)
+      · split
+        · exact h₁.trans (ih.expr ..)
+        · exact h₁
+  | call f args l =>
+    rw [evalExpr]
+    have h₁ := ih.expr σ ρ f
+    split
+    · rename_i heq; rw [heq] at h₁; exact h₁
+    · rename_i fv σ₁ heq; rw [heq] at h₁
+      have h₂ := ih.args σ₁ ρ args
+      split
+      rename_i rargs σ₂ heq₂
+      rw [heq₂] at h₂
+      split
+      · split
+        · exact h₁.trans h₂
+        · exact (h₁.trans h₂).trans (ih.proc ..)
+      · split <;> exact h₁.trans h₂
+
+theorem depth_args {n} (ih : Depth n) (σ ρ es) : DepthOk σ (evalArgs (n+1) σ ρ es).2 := by
+  cases es with
+  | nil => rw [evalArgs]; exact .refl σ
+  | cons a as =>
+    rw [evalArgs]
+    have h₁ := ih.expr σ ρ a
+    split
+    · rename_i heq; rw [heq] at h₁; exact h₁
+    · rename_i v σ₁ heq; rw [heq] at h₁
+      have h₂ := ih.args σ₁ ρ as
+      split
+      · rename_i heq₂; rw [heq₂] at h₂; exact h₁.trans h₂
+      · rename_i heq₂; rw [heq₂] at h₂; exact h₁.trans h₂
+
+theorem depth_proc {n} (ih : Depth n) (σ p as env) : DepthOk σ (applyProcedure (n+1) σ p as env).2 := by
+  rw [applyProcedure]
+  have h := ih.loop (enter σ) p as env
+  split
+  rename_i r σ₁ heq
+  rw [heq] at h
+  exact depthOk_enter_leave h
+
+theorem depth_loop {n} (ih : Depth n) (σ p as env) : DepthOk σ (applyLoop (n+1) σ p as env).2 := by
+  unfold applyLoop
+  split
+  · exact .refl σ
+  · split
+    · exact .refl σ
+    · split
+      · split
+        · exact .refl σ
+        · exact ih.loop ..
+      · exact .of_eq (applyPure_counters ..).1 (applyPure_counters ..).2
+      · rename_i lam cenv _
+        have h₁ := ih.scheme σ lam cenv as
+        split
+        · rename_i heq; rw [heq] at h₁; exact h₁
+        · rename_i heq; rw [heq] at h₁; exact h₁
+        · rename_i f targs tenv σ₁ heq; rw [heq] at h₁
+          have h₂ := ih.expr σ₁ tenv f
+          split
+          · rename_i heq₂; rw [heq₂] at h₂; exact h₁.trans h₂
+          · rename_i fv σ₂ heq₂; rw [heq₂] at h₂
+            have h₃ := ih.args σ₂ tenv targs
+            split
+            · rename_i heq₃; rw [heq₃] at h₃; exact (h₁.trans h₂).trans h₃
+            · rename_i vs σ₃ heq₃; rw [heq₃] at h₃
+              split
+              · exact (h₁.trans h₂).trans h₃
+              · exact ((h₁.trans h₂).trans h₃).trans (ih.loop ..)
+      · exact .refl σ
+
+theorem depth_scheme {n} (ih : Depth n) (σ lam cenv as) : DepthOk σ (applyScheme (n+1) σ lam cenv as).2 := by
+  rw [applyScheme_succ]
+  have hb := bindFixed_counters lam.formals.fixed as (σ.newFrame (some cenv)).2 (σ.newFrame (some cenv)).1
+  have h₀ : DepthOk σ (bindFixed (σ.newFrame (some cenv)).2 (σ.newFrame (some cenv)).1 lam.formals.fixed as).2 :=
+    .of_eq hb.1 hb.2
+  split
+  · rename_i heq; rw [heq] at h₀; exact h₀
+  · rename_i restArgs σ₁ heq; rw [heq] at h₀
+    have hr : DepthOk σ₁ (Ref.bindRest σ₁ (σ.newFrame (some cenv)).1 lam.formals.rest restArgs) := by
+      unfold Ref.bindRest; split
+      · exact .of_eq (define_counters ..).1 (define_counters ..).2
+      · exact .refl _
+    have h₁ := ih.defs (Ref.bindRest σ₁ (σ.newFrame (some cenv)).1 lam.formals.rest restArgs)
+      (σ.newFrame (some cenv)).1 lam.defs
+    split
+    · rename_i heq₂; rw [heq₂] at h₁; exact (h₀.trans hr).trans h₁
+    · rename_i heq₂; rw [heq₂] at h₁; exact ((h₀.trans hr).trans h₁).trans (ih.body ..)
+
+theorem depth_defs {n} (ih : Depth n) (σ ρ ds) : DepthOk σ (evalDefs (n+1) σ ρ ds).2 := by
+  cases ds with
+  | nil => rw [evalDefs]; exact .refl σ
+  | cons d ds =>
+    obtain ⟨name, e, l⟩ := d
+    rw [evalDefs]
+    have h₁ := ih.expr σ ρ e
+    split
+    · rename_i heq; rw [heq] at h₁; exact h₁
+    · rename_i v σ₁ heq; rw [heq] at h₁
+      exact (h₁.trans (.of_eq (define_counters ..).1 (define_counters ..).2)).trans (ih.defs ..)
+
+theorem depth_body {n} (ih : Depth n) (σ ρ es) : DepthOk σ (evalBody (n+1) σ ρ es).2 := by
+  match es with
+  | [] => rw [evalBody]; exact .refl σ
+  | [last] => rw [evalBody]; exact ih.tail ..
+  | e :: e2 :: es =>
+    rw [evalBody]
+    · have h₁ := ih.expr σ ρ e
+      split
+      · rename_i heq; rw [heq] at h₁; exact h₁
+      · rename_i v σ₁ heq; rw [heq] at h₁; exact h₁.trans (ih.body ..)
+    all_goals simp
+
+theorem depth_tail {n} (ih : Depth n) (σ ρ e) : DepthOk σ (evalTail (n+1) σ ρ e).2 := by
+  unfold evalTail
+  split
+  · exact .refl σ
+  · rename_i t c a l
+    have h₁ := ih.expr σ ρ t
+    split
+    · rename_i heq; rw [heq] at h₁; exact h₁
+    · rename_i tv σ₁ heq; rw [heq] at h₁
+      split
+      · exact h₁.trans (ih.tail ..)
+      · split
+        · exact h₁.trans (ih.tail ..)
+        · exact h₁
+  · have h₁ := ih.expr σ ρ e
+    split
+    · rename_i heq; rw [heq] at h₁; exact h₁
+    · rename_i heq; rw [heq] at h₁; exact h₁
+
+theorem depth_all : ∀ n, Depth n
+  | 0 => by
+    constructor <;> intros <;>
+      simp only [evalExpr, evalArgs, applyProcedure, applyLoop, applyScheme, evalDefs, evalBody, evalTail] <;>
+      exact .refl _
+  | n+1 =>
+    have ih := depth_all n
+    ⟨depth_expr ih, depth_args ih, depth_proc ih, depth_loop ih, depth_scheme ih, depth_defs ih,
+     depth_body ih, depth_tail ih⟩
+
+/-! ### the judgements keep the counters -/
+
+theorem Stable.depthOk {α} {f : Nat → Res α} {σ r σ'} (h : Stable f r σ') (hd : ∀ n, DepthOk σ (f n).2) :
+    DepthOk σ σ' := by
+  obtain ⟨_, N, hN⟩ := h
+  have := hd N; rw [hN N (Nat.le_refl _)] at this; exact this
+
+theorem Evals.depthOk {σ ρ e r σ'} (h : Evals σ ρ e r σ') : DepthOk σ σ' :=
+  Stable.depthOk h fun n => (depth_all n).expr σ ρ e
+theorem EvalsArgs.depthOk {σ ρ es r σ'} (h : EvalsArgs σ ρ es r σ') : DepthOk σ σ' :=
+  Stable.depthOk h fun n => (depth_all n).args σ ρ es
+theorem AppliesProc.depthOk {σ p as env r σ'} (h : AppliesProc σ p as env r σ') : DepthOk σ σ' :=
+  Stable.depthOk h fun n => (depth_all n).proc σ p as env
+theorem Applies.depthOk {σ p as env r σ'} (h : Applies σ p as env r σ') : DepthOk σ σ' :=
+  Stable.depthOk h fun n => (depth_all n).loop σ p as env
+theorem AppliesScheme.depthOk {σ lam cenv as r σ'} (h : AppliesScheme σ lam cenv as r σ') : DepthOk σ σ' :=
+  Stable.depthOk h fun n => (depth_all n).scheme σ lam cenv as
+theorem EvalsDefs.depthOk {σ ρ ds r σ'} (h : EvalsDefs σ ρ ds r σ') : DepthOk σ σ' :=
+  Stable.depthOk h fun n => (depth_all n).defs σ ρ ds
+theorem EvalsBody.depthOk {σ ρ es r σ'} (h : EvalsBody σ ρ es r σ') : DepthOk σ σ' :=
+  Stable.depthOk h fun n => (depth_all n).body σ ρ es
+theorem EvalsTail.depthOk {σ ρ e r σ'} (h : EvalsTail σ ρ e r σ') : DepthOk σ σ' :=
+  Stable.depthOk h fun n => (depth_all n).tail σ ρ e
+
+/-! ## inversion of the trampoline steps -/
+
+/-- a stable run, looked at one unit of fuel later -/
+theorem Stable.at_succ {α} {f : Nat → Res α} {r σ'} (h : Stable f r σ') (M : Nat) :
+    ∃ n, M ≤ n ∧ f (n+1) = (r, σ') := by
+  obtain ⟨_, N, hN⟩ := h
+  exact ⟨max M N, Nat.le_max_left _ _, hN _ (by omega)⟩
+
+/-- a pending tail call: the loop on the caller IS the loop continued with the callee, in the store
+left by operator and operands — there is no other way for it to end -/
+theorem Applies.closure_tail_iff {σ : Store} {lam : Lambda} {cenv : Nat} {args : List Value} {env : Nat}
+    {f targs tenv σ₁ fv σ₂ vs σ₃}
+    (ha : arityOk lam.formals.fixed.length lam.formals.rest.isSome args.length = true)
+    (hs : AppliesScheme σ lam cenv args (.ok (.tailCall f targs tenv)) σ₁)
+    (hf : Evals σ₁ tenv f (.ok fv) σ₂) (hargs : EvalsArgs σ₂ tenv targs (.ok vs) σ₃)
+    (hp : (procArity fv).isSome) (r σ') :
+    Applies σ (.closure lam cenv) args env r σ' ↔ Applies σ₃ fv vs env r σ' := by
+  constructor
+  · intro h
+    obtain ⟨_, N₁, h₁⟩ := hs.out; obtain ⟨_, N₂, h₂⟩ := hf.out; obtain ⟨_, N₃, h₃⟩ := hargs.out
+    obtain ⟨n, hn, hrun⟩ := Stable.at_succ h (max N₁ (max N₂ N₃))
+    rw [applyLoop_tail_step n env ha (h₁ n (by omega)) (h₂ n (by omega)) (h₃ n (by omega)) hp] at hrun
+    exact Applies.intro hrun h.1
+  · exact Applies.closure_tail ha hs hf hargs hp
+
+/-- `apply`: the loop on `apply` IS the loop continued with the procedure it was handed, in the
+same store -/
+theorem Applies.apply_iff {σ : Store} {args : List Value} {env : Nat} {f args'} (ha : 1 ≤ args.length)
+    (hs : spreadApply args = .ok (f, args')) (r σ') :
+    Applies σ (.builtin .apply) args env r σ' ↔ Applies σ f args' env r σ' := by
+  constructor
+  · intro h
+    obtain ⟨n, _, hrun⟩ := Stable.at_succ h 0
+    rw [applyLoop_apply_step n σ env ha hs] at hrun
+    exact Applies.intro hrun h.1
+  · exact Applies.apply ha hs
+
+/-- an activation IS the loop run one level deeper -/
+theorem AppliesProc.iff_loop {σ p args env r σ'} :
+    AppliesProc σ p args env r σ' ↔ ∃ σ₁, Applies (enter σ) p args env r σ₁ ∧ σ' = leave σ₁ := by
+  constructor
+  · intro h
+    obtain ⟨n, _, hrun⟩ := Stable.at_succ h 0
+    simp only [applyProcedure] at hrun
+    cases hl : applyLoop n (enter σ) p args env with
+    | mk r₁ σ₁ =>
+      rw [hl] at hrun
+      simp only [Prod.mk.injEq] at hrun
+      obtain ⟨rfl, rfl⟩ := hrun
+      exact ⟨σ₁, Applies.intro hl h.1, rfl⟩
+  · rintro ⟨σ₁, h, rfl⟩; exact AppliesProc.of_loop h
+
+/-! ## tail expressions -/
+
+/-- the expressions `es` evaluate in order, each to some value (which is dropped), from `σ` to `σ'` -/
+inductive EvalsSeq (ρ : Nat) : Store → List Expr → Store → Prop
+  | nil {σ} : EvalsSeq ρ σ [] σ
+  | cons {σ e v σ₁ es σ'} (h : Evals σ ρ e (.ok v) σ₁) (ht : EvalsSeq ρ σ₁ es σ') : EvalsSeq ρ σ (e :: es) σ'
+
+theorem EvalsSeq.depthOk {ρ σ es σ'} (h : EvalsSeq ρ σ es σ') : DepthOk σ σ' := by
+  induction h with
+  | nil => exact .refl _
+  | cons h _ ih => exact h.depthOk.trans ih
+
+/-- the body of a procedure: everything before the last expression is evaluated for effect, the
+last expression as a tail expression -/
+theorem EvalsBody.seq_last {ρ σ es σ₁ last r σ'} (hs : EvalsSeq ρ σ es σ₁) (ht : EvalsTail σ₁ ρ last r σ') :
+    EvalsBody σ ρ (es ++ [last]) r σ' := by
+  induction hs with
+  | nil => exact EvalsBody.last ht
+  | @cons σ e v σ₁ es σ₂ h _ ih =>
+    have := ih ht
+    cases es with
+    | nil => exact EvalsBody.cons h this
+    | cons e' es' => exact EvalsBody.cons h this
+
+theorem EvalsTail.cond_iff {σ ρ t c a l tv σ₁} (ht : Evals σ ρ t (.ok tv) σ₁) (r σ') :
+    EvalsTail σ ρ (.cond t c a l) r σ' ↔
+      if tv.truthy then EvalsTail σ₁ ρ c r σ'
+      else match a with
+        | some alt => EvalsTail σ₁ ρ alt r σ'
+        | none => r = .ok (.value .void) ∧ σ' = σ₁ := by
+  constructor
+  · intro h
+    obtain ⟨_, N₁, h₁⟩ := ht.out
+    obtain ⟨n, hn, hrun⟩ := Stable.at_succ h N₁
+    rw [evalTail, h₁ n hn] at hrun
+    simp only at hrun
+    split
+    · rename_i htv; rw [if_pos htv] at hrun; exact EvalsTail.intro hrun h.1
+    · rename_i htv; rw [if_neg htv] at hrun
+      split
+      · exact EvalsTail.intro hrun h.1
+      · simp only [Prod.mk.injEq] at hrun; exact ⟨hrun.1.symm, hrun.2.symm⟩
+  · intro h
+    split at h
+    · exact EvalsTail.cond_true ht ‹_› h
+    · have htv : tv.truthy = false := by simpa using ‹¬ tv.truthy = true›
+      split at h
+      · exact EvalsTail.cond_false ht htv h
+      · obtain ⟨rfl, rfl⟩ := h; exact EvalsTail.cond_void ht htv
 
 end Ruschm.Eval
